@@ -412,7 +412,14 @@ func ExtractRule(ctx *Context, fact Map, required bool) (Map, error) {
 			Log(DEBUG, ctx, "ExtractRule", "expires", expires)
 			if have {
 				// ToDo: Probably shouldn't modify given fact this way.
-				vv["expires"] = expires
+				//
+				// The stored rule body already carries the expiration
+				// (setExpires puts it there when the fact is written);
+				// don't write to the shared map again on every
+				// (concurrent, read-locked) dispatch.
+				if cur, given := vv["expires"]; !given || cur != expires {
+					vv["expires"] = expires
+				}
 			}
 			return vv, nil
 		default:
